@@ -10,6 +10,7 @@ import GM.Props.C02c
 import GM.Props.Consts.Parser
 import GM.Props.C02Emph
 import GM.Props.C02Esc
+import GM.Props.C02LinkFix
 import GM.Props.C02Frag
 import GM.Props.C02Link
 
@@ -160,5 +161,14 @@ theorem lineLoop_line_end_resets : type_of% @GM.Props.C02Esc.lineLoop_line_end_r
     with ANY virtual paddings, closer not a space: the last segment it hands out stops exactly at the source offset of a closer byte
     (the padding at the head of the peeked line is not counted) -/
 theorem findClosure_stop_excludes_padding : type_of% @GM.Props.C02Esc.findClosure_stop_excludes_padding := @GM.Props.C02Esc.findClosure_stop_excludes_padding
+
+/-- (re-export of `GM.Props.C02LinkFix.model_destination_agrees_with_reference_pointy`, package linkfix, repair 5e850d1) goldmark's `<…>` link destination
+    (model `GM.Inl.destAngle`), on every line without an inner line ending, is exactly what the specification-side scanner `GM.Spec.CMLink.pointy` returns:
+    same raw destination, same rest, rejected iff rejected -/
+theorem model_destination_agrees_with_reference_pointy : type_of% @GM.Props.C02LinkFix.model_destination_agrees_with_reference_pointy := @GM.Props.C02LinkFix.model_destination_agrees_with_reference_pointy
+
+/-- (re-export of `GM.Props.C02LinkFix.model_destination_agrees_with_reference_bare`, repair ce3b6c4) … and the bracket-free destination (`destPlain` / `destOpened`),
+    on every line whose only white-space / control characters are spaces and line feeds, is what `GM.Spec.CMLink.bare` returns -/
+theorem model_destination_agrees_with_reference_bare : type_of% @GM.Props.C02LinkFix.model_destination_agrees_with_reference_bare := @GM.Props.C02LinkFix.model_destination_agrees_with_reference_bare
 
 end GM.Props.C02
